@@ -146,10 +146,7 @@ def check(run):
                     run.fail('C07: exit %s without an error message' % im['exit'], dict(replay, text=im['text'][-400:]))
                     continue
                 bad = classify(s2, im['before']['dest'], im['after']['dest'], planned, im['after']['src'])
-                if bad and kind == 'fd' and 'F6b' in known and any(n['k'] == 'link' for n in s2.dest.values()) \
-                        and mut[k] in ('DeleteSymlink',):
-                    run.known('F6b', known['F6b']['what'])      # a failed link deletion followed by queued creations
-                elif bad:
+                if bad:
                     run.fail('C07: after the failed run these paths are neither as before, nor as planned, nor an unstamped partial file: %s' % bad[:3], replay)
                 elif o.mismatch:
                     run.broke('correspondence', 'e2e-A', json.dumps({'scenario': s2.to_json(), 'mismatch': o.mismatch})[:2500])
